@@ -16,7 +16,7 @@ for d in _out/[0-9]*; do
   run=$d/demo/RUN.md
   # copy / mkdir commands and the cargo test command(s) from RUN.md
   grep -E "^\s*(mkdir -p|cp ) ?" $run | grep -v "^#" | sed 's/^\s*//' | awk '!seen[$0]++' > $d/.setup.sh
-  grep -E "^\s*cargo test" $run | sed 's/^\s*//' | sort -u > $d/.test.sh
+  grep -E "^\s*([A-Z_]+=[^ ]+ )*cargo test" $run | sed 's/^\s*//' | sort -u > $d/.test.sh
   echo "setup: $(cat $d/.setup.sh | tr '\n' ';')" >> $V
   echo "test:  $(cat $d/.test.sh | tr '\n' ';')" >> $V
   git apply --check $d/patch.diff 2>>$V || { echo "RESULT patch-does-not-apply" >> $V; continue; }
